@@ -60,7 +60,8 @@ class EncoderModel(Model):
         if name == "write_fmt" and place_text(args[0]) == self.stream:
             # write!(self.to, "{x}") of a single string argument: len(x) bytes
             fa = args[1]
-            names = [x[2] for x in H.walk(fa) if H.kind(x) == "path" and x[3] == "local"]
+            bound = {b for x in H.walk(fa) if H.kind(x) == "slet" for b in H.pat_bindings(x[2])}
+            names = [x[2] for x in H.walk(fa) if H.kind(x) == "path" and x[3] == "local" and x[2] not in bound]
             lits = [x[2][1] for x in H.walk(fa) if H.kind(x) == "lit" and x[2][0] == "str" and x[2][1]]
             names = sorted(set(names))
             if len(names) == 1 and not lits:
